@@ -11,7 +11,8 @@ LEVEL = 'exploration'
 DESIGN_REF = 'DESIGN.md 4/C04'
 RULE = ('Hypothesis draws (T, v) and two construction histories h1, h2 of v, each a program over the public API: components '
         'assigned in any order by name / position / item assignment / setComponents, SET OF members added in any order with '
-        'append / extend / positional assignment (positions in any order), CHOICE alternatives selected directly or - after the '
+        'append / extend / positional assignment (positions in any order), top-down construction (members reached through the '
+        'instantiating accessors of the half-built parent and completed in place, with read-only uses of the parent in between), CHOICE alternatives selected directly or - after the '
         'finished value was encoded and printed once - re-selected in place from another alternative, DEFAULT components equal to their default assigned or left out, sub-values '
         'obtained by decoding a drawn BER variant, clone(cloneValueFlag=True) of intermediate objects, and read-only uses '
         '(BER/CER/DER/native encoding, str, prettyPrint, repr, iteration, keys/values/items, == and != against equal and '
@@ -115,9 +116,60 @@ def readonly(t, o, T):
                         # this property only demands that it does not change what o encodes to
 
 
+def fill(t, o, T, v, depth):
+    """Top-down construction: o is an existing object of (constructed) type T - fresh, or the placeholder an instantiating
+    accessor handed out - and is completed in place; constructed members are reached through the parent (o[name], o[i]) and
+    filled through that reference, with read-only uses of the half-built parent in between."""
+    k = T['k']
+    con = lambda ct: ct['k'] in ir.CONSTRUCTED_KINDS or ct['k'] == 'CHOICE'
+    if k in ir.RECORD_KINDS:
+        present = [(idx, c) for idx, c in enumerate(T['comps']) if c['name'] in v]
+        for j in t.perm(len(present)):
+            idx, c = present[j]
+            if con(c['t']) and c['p'] != 'def' and t.pct(65):
+                # (not for DEFAULT members: the accessor hands those out pre-filled with the default)
+                child = o.getComponentByName(c['name'])              # documented: instantiates the member in place
+                if t.pct(50):
+                    readonly(t, o, T)
+                fill(t, child, c['t'], v[c['name']], depth + 1)
+                if t.pct(30):
+                    readonly(t, o, T)
+            else:
+                o.setComponentByName(c['name'], construct(t, o.componentType[idx].asn1Object, c['t'], v[c['name']], depth + 1))
+        if not present:
+            o.clear()
+    elif k in ir.OF_KINDS:
+        if not v:
+            o.clear()
+        for i, x in enumerate(v):
+            if con(T['of']) and t.pct(65):
+                child = o.getComponentByPosition(i)
+                if t.pct(40):
+                    readonly(t, o, T)
+                fill(t, child, T['of'], x, depth + 1)
+            else:
+                o.setComponentByPosition(i, construct(t, o.componentType, T['of'], x, depth + 1))
+    else:
+        name, inner = v
+        idx = [a['name'] for a in T['alts']].index(name)
+        at = T['alts'][idx]['t']
+        if con(at) and t.pct(65):
+            child = o.getComponentByName(name)
+            if t.pct(40):
+                readonly(t, o, T)
+            fill(t, child, at, inner, depth + 1)
+        else:
+            o.setComponentByName(name, construct(t, o.componentType[idx].asn1Object, at, inner, depth + 1))
+    t.log.append('top-down')
+
+
 def construct(t, sch, T, v, depth=0):
     """Build a value object of v on schema sch following the tape."""
     k = T['k']
+    if (k in ir.CONSTRUCTED_KINDS or k == 'CHOICE') and k != 'SETOF' and t.pct(20):
+        o = sch.clone()
+        fill(t, o, T, v, depth)
+        return o
     # sub-value obtained by decoding a drawn BER variant
     if depth > 0 and k != 'ANY' and t.pct(12):
         ch = gen.HypChooser(t.draw) if t.draw is not None else None
